@@ -412,6 +412,53 @@ def rule_late_data_format(rep, repo, configs, rule):
   return n9
 
 
+def rule_default_axes(rep, repo, configs, rule):
+  """Per-channel statistics under both image data formats (shared with C05).
+  With scale_axis left at its default every data-derived statistic of a
+  quantizer (scale fit, maximum, deviation, threshold) is taken per output
+  channel.  The library's convention, read off its reduction sites and
+  frozen here: channels_last - one value per index of the last axis
+  (reduction over axes 0..rank-2); channels_first - one value per index of
+  axis 0 (reduction over axes 1..rank-1); keepdims, so that the value
+  broadcasts.  Decided for ranks 2, 3 and 4 in both phases; a site that
+  reduces over other axes is reported with the axes it uses."""
+  mod = repo.module(quant.QMOD)
+  n = 0
+  for cls, kw in configs:
+    unit = "%s::%s.__call__" % (mod.relpath, cls)
+    for fmt in ("channels_last", "channels_first"):
+      for shp in ((4, 6), (4, 3, 5), (4, 3, 3, 5)):
+        rank = len(shp)
+        want = tuple(range(rank - 1)) if fmt == "channels_last" else \
+            tuple(range(1, rank))
+        cfg = "%s(%s)@shape%s, %s" % (cls, oracle.show_kwargs(kw), shp, fmt)
+        try:
+          b = quant.build(repo, cls, kw, x_shape=shp, image_data_format=fmt)
+        except ConfigRejected:
+          continue
+        n += 1
+        seen = {}
+        terms = [b.term]
+        for sattr in ("scale", "quantization_scale"):
+          sv = b.obj.attrs.get(sattr)
+          if isinstance(sv, Tensor):
+            terms.append(sv.term)
+        for ph in ("infer", "train"):
+          for t in terms:
+            for a in Fwd(ph)(t).atoms():
+              if a[0] == "app" and a[1].startswith("reduce_"):
+                seen.setdefault(tuple(a[2]), a[1])
+        bad = sorted((ax, fn) for ax, fn in seen.items()
+                     if ax != (want, True))
+        rep.check(not bad, rule, unit, "statistic-not-per-channel",
+                  "%s: %s; the per-channel convention reduces over axes %s "
+                  "with keepdims" % (cfg, "; ".join(
+                      "%s over axes %s (keepdims %s)" % (fn, ax[0], ax[1])
+                      for ax, fn in bad), want),
+                  loc=b.pe.loc_of(b.term), instance=cfg)
+  return n
+
+
 def rule_call_is_pure(rep, repo, classes, rule, tier):
   """A call leaves the configuration alone: after q(x) every constructor
   option still has the value it had (lists included - an option list that
@@ -473,6 +520,32 @@ def rule_call_is_pure(rep, repo, classes, rule, tier):
                 "%s: the second call of the same object on the same input "
                 "computes %s, the first %s" % (cfg, show(Fwd()(o2.term), 160),
                                                show(Fwd()(o1.term), 160)),
+                loc=pe.loc_of(o1.term), instance=cfg)
+      # ... and a later call on a tensor of another rank is the call a fresh
+      # object would make (nothing derived from the first tensor is kept)
+      try:
+        pe2, q2 = quant.construct(repo, cls, {k_: _copy.deepcopy(v_)
+                                              for k_, v_ in kw.items()},
+                                  x_shape=(5, 7))
+        pe2.rand_counter = 0
+        fresh = pe2.call(q2, [pe2.x_input()], {})
+      except (ConfigRejected, PyRaise):
+        continue
+      try:
+        pe.rand_counter = 0
+        o3 = pe.call(q, [Tensor(("x",), (5, 7))], {})
+      except PyRaise as e:
+        rep.fail(rule, unit, "call-on-another-rank-raises", "%s: after the "
+                 "calls on a rank-3 tensor a call on a rank-2 tensor raises "
+                 "%s (a fresh object accepts it)" % (cfg, e),
+                 loc=pe.loc_of(o1.term), instance=cfg)
+        continue
+      same = all(equal_mod_finite(Fwd(ph)(o3.term), Fwd(ph)(fresh.term))
+                 for ph in ("infer", "train"))
+      rep.check(same, rule, unit, "call-depends-on-earlier-tensor",
+                "%s: after calls on a rank-3 tensor a rank-2 tensor gives "
+                "%s, a fresh object %s" % (cfg, show(Fwd()(o3.term), 160),
+                                           show(Fwd()(fresh.term), 160)),
                 loc=pe.loc_of(o1.term), instance=cfg)
   return n
 
@@ -618,6 +691,16 @@ def run(rep, repo, tier):
       ("ternary", dict(alpha="auto_po2")), ("ternary", dict(alpha=None)),
       ("stochastic_binary", dict(alpha="auto")),
       ("stochastic_ternary", dict(alpha="auto"))], "R8", tier)
+  n10 = rule_default_axes(rep, repo, [
+      ("binary", dict(alpha="auto")), ("binary", dict(alpha="auto_po2")),
+      ("binary", dict(alpha="auto", use_stochastic_rounding=True)),
+      ("ternary", dict(alpha="auto")), ("ternary", dict(alpha="auto_po2")),
+      ("ternary", dict(alpha="auto", use_stochastic_rounding=True)),
+      ("stochastic_binary", dict(alpha="auto")),
+      ("stochastic_ternary", dict(alpha="auto"))], "R10")
+  if n10 < 40:
+    raise AnalysisError("instance-count only %d per-channel axis points" %
+                        n10)
   if n8 < 15:
     raise AnalysisError("instance-count only %d call-purity configurations"
                         % n8)
